@@ -210,6 +210,9 @@ def judge(case, run, w, truth, between, scode, sreason, acc):
                   calls=[(c['ev'], c['name'], c['ok'], c['exc']) for c in run.calls])
     if key is None and (residue or errors):
         key = 'client-wrote-garbage'
+    if key is None and 'protocol_error' in names:
+        # every server stream of this check is conforming
+        key = 'protocol-error-on-conforming-stream'
     if key is None:
         key = monitors.close_discipline(frames)
     if key is None:
